@@ -67,7 +67,7 @@ def req_bytes(kind, i):
     raise AssertionError(kind)
 
 
-RESP_KINDS = ["cl", "chunked", "close", "304", "crlf-cl"]
+RESP_KINDS = ["cl", "chunked", "close", "304", "crlf-cl", "crlf2-cl"]
 SURPLUS = b"xyz"
 
 
@@ -87,6 +87,8 @@ def resp_segments(kind, target, method):
         return b"HTTP/1.1 304 Not Modified\r\n" + tag + b"\r\n", False
     if kind == "crlf-cl":
         return b"\r\n" + resp_segments("cl", target, method)[0], False
+    if kind == "crlf2-cl":
+        return b"\r\n\r\n" + resp_segments("cl", target, method)[0], False
     if kind.endswith("+surplus"):
         # a misbehaving server: bytes that belong to no response directly behind a complete, self-delimited one
         return resp_segments(kind[: -len("+surplus")], target, method)[0] + SURPLUS, False
@@ -359,7 +361,7 @@ def obligations(tier):
               "resp": ["cl", "chunked", "close", "304"] + ([] if q else ["crlf-cl"]), "stream": [False] if q else [False, True], "ccuts": 0, "scuts": 2}
     both = {"name": "both-1cut", "req1": ["get"] if q else ["get", "post-cl"], "req2": ["get"], "resp": ["cl"] if q else ["cl", "chunked"],
             "stream": [False], "ccuts": 1, "scuts": 1, "scut_first_only": True}
-    bw = {"name": "one-byte-segments", "req1": REQ_KINDS, "req2": ["-"] + REQ_KINDS, "resp": RESP_KINDS[:4] if q else RESP_KINDS, "stream": [False, True]}
+    bw = {"name": "one-byte-segments", "req1": REQ_KINDS, "req2": ["-"] + REQ_KINDS, "resp": RESP_KINDS[:4] + RESP_KINDS[5:] if q else RESP_KINDS, "stream": [False, True]}
 
     def desc(c):
         return (f"first request in {c['req1']}, pipelined second in {c['req2']}, response kind per request in {c['resp']}, body streaming in {c['stream']}; "
